@@ -54,3 +54,9 @@ fn test_divisibleby_zero() {
     );
     assert_eq!(render("{{ 42 is divisibleby(2) }}").unwrap(), "True");
 }
+
+#[test]
+fn test_expression_with_closing_delimiter() {
+    assert_eq!(eval_err("1 }} 2"), ErrorKind::SyntaxError);
+    assert_eq!(eval_err("}}x"), ErrorKind::SyntaxError);
+}
